@@ -414,8 +414,10 @@ static void fam_doc()
 							// secondary judge (gpg, if installed): self-signed key + detached signature
 							RO.emit(sigverify_kind("pgp.gpgverify", s, h).c_str(), { hex(s.block), num(s.algo), hex(pkt), hex(doc), type ? "text" : "binary" }, "1", cid);
 						}
-						if (di != 0 && !(di == 2 && type == 1))
+						if (di != 0 && !(TH && di == 2 && type == 1))
 							continue;
+						if (!TH && !(h == 8 || h == 10 || h == 2))
+							continue;   // quick tier: tamper loops for SHA-256, SHA-512, SHA-1 cells only
 						// tampering: signature packet, document, key packet
 						tamper_sigpkt(pkt, s.pub->key, t, cid, "doc");
 						tamper_object(doc, pkt, s.pub->key, t, [](Target &x, const octets &m) { x.data = m; }, type == 1, cid, "document");
